@@ -167,6 +167,16 @@ def arg_code(atom, n, v):
         return [], [], ["zz_obj%d" % v], []
     if isinstance(atom, A.PtrPtrOut):
         return ["%s, pointer :: %s(:)" % (atom.t.fdecl, z)], [], [z], [obs_array(atom.t, z)]
+    if isinstance(atom, A.PtrPtrRaw):
+        return ["type(C_PTR) :: %s" % z, "%s, pointer :: %s_p(:)" % (atom.t.fdecl, z)], [], [z], ["call c_f_pointer(%s, %s_p, [4])" % (z, z), obs_array(atom.t, z + "_p")]
+    if isinstance(atom, A.ArrOutAlloc):
+        return ["%s, allocatable :: %s(:)" % (atom.t.fdecl, z)], [], ["%d_C_INT" % v, z], [obs_array(atom.t, z)]
+    if isinstance(atom, A.VoidPP):
+        if atom.form == "in":
+            return ["integer(C_INT), target :: %s_t" % z, "type(C_PTR) :: %s" % z], ["%s_t = %s" % (z, flit(A.NATIVE["int"], v)), "%s = c_loc(%s_t)" % (z, z)], [z], []
+        return ["type(C_PTR) :: %s" % z, "integer(C_INT), pointer :: %s_p" % z], [], [z], ["call c_f_pointer(%s, %s_p)" % (z, z), obs_scalar(A.NATIVE["int"], z + "_p")]
+    if isinstance(atom, A.CdescIn):
+        return ["%s :: %s(3)" % (atom.t.fdecl, z)], ["%s = [%s]" % (z, ", ".join(flit(atom.t, x) for x in v))], [z], []
     if isinstance(atom, A.PtrPtrIn):
         d = ["%s, target :: %s_r1(2), %s_r2(2)" % (atom.t.fdecl, z, z), "type(C_PTR), target :: %s(2)" % z]
         pre = ["%s_r1 = [%s, %s]" % (z, flit(atom.t, v[0]), flit(atom.t, v[1])), "%s_r2 = [%s, %s]" % (z, flit(atom.t, v[2]), flit(atom.t, v[3])),
@@ -190,8 +200,11 @@ def res_code(res, call, extra):
     """-> (declarations, statements performing the call and observing the result)"""
     if isinstance(res, A.VoidRes):
         return [], ["call " + call]
+    if isinstance(res, A.VoidPtrRes) or (isinstance(res, A.PtrRes) and res.deref == "raw"):
+        t = A.NATIVE["int"] if isinstance(res, A.VoidPtrRes) else res.t
+        return ["type(C_PTR) :: zz_r", "%s, pointer :: zz_p" % t.fdecl], ["zz_r = " + call, "call c_f_pointer(zz_r, zz_p)", obs_scalar(t, "zz_p")]
     if isinstance(res, (A.NatRes, A.PtrRes)):
-        if isinstance(res, A.PtrRes):
+        if isinstance(res, A.PtrRes) and res.deref != "scalar":
             return ["%s, pointer :: zz_r" % res.t.fdecl], ["zz_r => " + call, obs_scalar(res.t, "zz_r")]
         return ["%s :: zz_r" % res.t.fdecl], ["zz_r = " + call, obs_scalar(res.t, "zz_r")]
     if isinstance(res, A.BoolRes):
